@@ -170,3 +170,37 @@ Proof.
   - apply (seq_store_meaning e s silent mb q item new it Hu Hi Hv). simpl. rewrite Hv, Hs. simpl. now apply junk_class_no_spam.
   - apply (uid_store_meaning e s silent mb q item new it Hu Hi Hv). simpl. rewrite Hv, Hs. simpl. now apply junk_class_no_spam.
 Qed.
+
+(** ---------- reports do not depend on the asking session ---------- *)
+
+(** STATUS UNSEEN / MESSAGES of any two sessions - whatever they have selected
+    (the mailbox asked about or another or none), however they selected it, and
+    whatever their cached counters hold - are equal; SEARCH and FETCH of two
+    sessions that have the same mailbox selected are equal. *)
+Theorem reports_independent_of_session ss ss' s :
+  (forall mb, status_unseen ss s mb = status_unseen ss' s mb)
+  /\ (forall mb, status_messages ss s mb = status_messages ss' s mb)
+  /\ (ss_selected ss = ss_selected ss' ->
+      (forall k, sess_search ss s k = sess_search ss' s k) /\ sess_fetch ss s = sess_fetch ss' s).
+Proof.
+  split; [reflexivity|]. split; [reflexivity|]. unfold sess_search, sess_fetch. intros ->. split; reflexivity.
+Qed.
+
+(** ... and they are the set-membership answers about the table *)
+Theorem session_reports_exact ss s :
+  (forall mb, status_unseen ss s mb = spec_unseen_count (links s) mb)
+  /\ (forall k, sess_search ss s k = spec_search (links s) (ss_selected ss) k)
+  /\ (forall u fl, In (u, fl) (sess_fetch ss s) <->
+        exists l, In l (links s) /\ lk_mbox l = ss_selected ss /\ lk_uid l = u /\ lk_flags l = fl)
+  /\ (forall mb, status_messages ss s mb = Z.of_nat (length (view (links s) mb))).
+Proof.
+  split; [intros mb; apply unseen_exact|]. split; [intros k; apply search_exact|].
+  split; [intros u fl; apply view_iff|].
+  intros mb. unfold status_messages, view, mbox_links. rewrite map_length. f_equal.
+  assert (K : forall l, length (sort_uid l) = length l).
+  { induction l as [|x l IH]; [reflexivity|]. unfold sort_uid in *. simpl.
+    assert (Hi : forall y m, length (ins_uid y m) = S (length m)).
+    { intros y m. induction m as [|z m IHm]; simpl; [reflexivity|]. destruct (lk_uid y <=? lk_uid z); simpl; [reflexivity | now rewrite IHm]. }
+    now rewrite Hi, IH. }
+  now rewrite K.
+Qed.
